@@ -229,13 +229,57 @@ func runC18(c *Ctx) {
 						}
 					}
 					w.Focus(tc)
+					// a method value of a small record holding the two paths: the method, with the record's fields standing for
+					// what was stored into them here
+					fieldOf := map[string]string{}
+					if installed != nil && strings.HasPrefix(installed.Synthetic, "bound method wrapper") {
+						var rec *ssa.Alloc
+						for fld, vals := range FieldStores(tc, strip(nc.Call.Args[0]).(*ssa.UnOp).X.(*ssa.Alloc)) {
+							if fld == "CertKeyGetter" && len(vals) == 1 {
+								if gc, ok := w.canon(tc, vals[0]).(*ssa.MakeClosure); ok && len(gc.Bindings) == 1 {
+									if ld, isLd := strip(gc.Bindings[0]).(*ssa.UnOp); isLd {
+										rec, _ = ld.X.(*ssa.Alloc)
+									} else if al, isAl := strip(gc.Bindings[0]).(*ssa.Alloc); isAl {
+										rec = al
+									}
+								}
+							}
+						}
+						var real *ssa.Function
+						for _, call := range callsIn(installed) {
+							if callee := call.Common().StaticCallee(); callee != nil && w.InRepo(callee) {
+								real = callee
+							}
+						}
+						if rec != nil && real != nil && !w.recordEscapes(rec, 0, map[ssa.Value]bool{}) {
+							for fld, vals := range FieldStores(tc, rec) {
+								if len(vals) == 1 {
+									fieldOf["p0."+fld] = w.Expr(vals[0])
+								}
+							}
+							installed = real
+						}
+					}
 					for _, a := range []*ssa.Function{installed} {
 						if a == nil {
 							continue
 						}
 						var reads []string
 						for _, rc := range callsTo(a, "os.ReadFile") {
-							reads = append(reads, w.Expr(rc.Common().Args[0]))
+							ex := w.ExprIn(a, rc.Common().Args[0])
+							if sub, ok := fieldOf[ex]; ok {
+								ex = sub
+							}
+							reads = append(reads, ex)
+						}
+						if len(fieldOf) > 0 && len(reads) == 2 && reads[0] == "p0" && reads[1] == "p1" {
+							// returns (cert, key) in that order: the first and the second file read
+							rcs := callsTo(a, "os.ReadFile")
+							for _, r := range w.MayBeNilReturns(a) {
+								if len(r.Results) == 3 && throughCell(strip(r.Results[0])) == ssa.Value(extractOf(rcs[0].(*ssa.Call), 0)) && throughCell(strip(r.Results[1])) == ssa.Value(extractOf(rcs[1].(*ssa.Call), 0)) {
+									okGetter = true
+								}
+							}
 						}
 						if len(reads) == 2 && reads[0] == "p0" && reads[1] == "p1" {
 							// returns (cert, key) in that order
